@@ -2,15 +2,51 @@ from vlib import H
 import itertools
 PROPERTY = 'C13'
 LEVEL = 'model_checking'
-CLAIM = ('wip')
+CLAIM = ('(1) The real CuckooCache::cache<uint64_t, H> (cuckoocache.h: setup, insert with cuckoo displacement and depth limit, contains with/without erase, epoch ageing, bit-packed atomic flags) with a NONDETERMINISTIC hash functor H '
+         '(the 8 hashes of every element are arbitrary 32-bit values; only "equal elements hash equally" is imposed): for every enumerated sequence of insert / contains / contains+erase over symbolic elements and table sizes 2..4, '
+         'contains(e) is true only if e was inserted before (or e is the value-initialised element a fresh table is filled with), every slot always holds an inserted or initial element, the first insert is found, '
+         'erase/keep flags change exactly as documented, and insert() never overwrites a kept element while an erasable location is available and no ageing is due. '
+         '(2) The real sigcache.cpp under a recording, collision-free model of CSHA256 (digest equality <=> message equality, digest != 0): every cache entry is the digest of exactly nonce|tag|0^31|sighash|pubkey|signature with tag E (ECDSA) / S (Schnorr), '
+         'so ECDSA and Schnorr entries never coincide even over byte-identical payloads and same-kind entries coincide iff the triples do; CachingTransactionSignatureChecker::VerifyECDSASignature/VerifySchnorrSignature with cache and verifier replaced by recorders: '
+         'exactly one lookup of exactly this triple\'s entry with erase == !store, a hit returns true without verifying, a miss returns the verifier\'s verdict for exactly this triple and stores the entry iff store && verdict; '
+         'end to end with the real 2-slot cache: for two consecutive checks (all kind combinations; payload bytes, store flags and the verifier\'s verdict function symbolic) each result equals the cache-free verdict. '
+         'Not covered: the script-execution cache key in validation.cpp::CheckInputScripts (wtxid+flags; needs the whole of validation.cpp), histories longer than stated, concurrency (single-threaded model: shared_mutex is a no-op).')
 CK = {'i': 1, 'c': 2, 'e': 3}
 def ck(size, seq, wit=None):
     """entry for cuckoo.cpp: table size, then a string over i(nsert) c(ontains, keep) e (contains + erase)"""
     ks = [CK[x] for x in seq] + [0] * (6 - len(seq))
     if wit is None: wit = (3 if ('c' in seq or 'e' in seq) else 0)
     return ('s%d_%s' % (size, seq), ', '.join([str(size), str(wit)] + [str(k) for k in ks]))
-CK_QUICK = [ck(2, 'icie'), ck(2, 'iiic', wit=7), ck(3, 'ieic'), ck(2, 'ciei'), ck(3, 'iiii', wit=0), ck(4, 'iiec')]
+CK_QUICK = [ck(2, 'icie'), ck(2, 'iiic', wit=7), ck(3, 'ieic'), ck(2, 'ciei'), ck(3, 'iiii', wit=0), ck(4, 'iiec'), ck(2, 'eici'), ck(3, 'iiei', wit=7)]
+CK_THOROUGH = list(CK_QUICK)
+for size in (2, 3):
+    for seq in itertools.product('ice', repeat=4):
+        seq = ''.join(seq)
+        if 'i' in seq and (size == 2 or seq[0] == 'i') and seq not in [e[0].split('_')[1] for e in CK_THOROUGH if e[0].startswith('s%d_' % size)]: CK_THOROUGH.append(ck(size, seq))
+CK_THOROUGH += [ck(2, 'iiciei'), ck(3, 'iiiici'), ck(2, 'ieieic'), ck(4, 'iiiiic')]
+SIGLINK = ['script/sigcache.cpp', 'uint256.cpp']
+E, S = ord('E'), ord('S')
+SIGFN = ['SignatureCache::SignatureCache (salted hashers with the E / S padding block)', 'SignatureCache::ComputeEntryECDSA', 'SignatureCache::ComputeEntrySchnorr', 'SignatureCache::Get', 'SignatureCache::Set',
+         'CachingTransactionSignatureChecker::VerifyECDSASignature', 'CachingTransactionSignatureChecker::VerifySchnorrSignature (script/sigcache.cpp)', 'CPubKey::Set/size/data, XOnlyPubKey (pubkey.h)']
+SIGST = ['CSHA256 -> recording collision-free model (messages kept as chunk chains; digest chosen by the solver with: equal messages <=> equal digests, digest != 0)',
+         'TransactionSignatureChecker::VerifyECDSASignature/VerifySchnorrSignature -> recorder returning a symbolic verdict (elliptic-curve verification is C10/C50)', 'GetRandBytes -> symbolic nonce',
+         'util::log::Log, GetMockTime, ThreadGetInternalName, system_clock::now, pthread_rwlock_* -> no-ops (logging / single-threaded model)', 'tinyformat -> empty strings', 'log2f -> exact integer model for sizes < 256']
+SIGAS = ['SHA256 is collision-free on the messages that occur and never outputs the all-zero string (the value CuckooCache::setup() fills the table with; contains() reports it as present on a fresh cache)',
+         'the cache-free verifier is a function of (kind, sighash, pubkey, signature)']
 HARNESSES = [
-    H('cuckoo', 'cuckoo.cpp', 'h_cuckoo', link=[], entries=CK_QUICK, unwind=12, memunwind=40, timeout=300, objbits=10,
-      functions=['CuckooCache::cache'], bounds='wip'),
+    H('cuckoo', 'cuckoo.cpp', 'h_cuckoo', link=[], entries=CK_QUICK, tentries=CK_THOROUGH, unwind=12, memunwind=40, timeout=600, objbits=10,
+      functions=['CuckooCache::cache<Element,Hash>::setup, insert, contains, compute_hashes, epoch_check, allow_erase, please_keep', 'CuckooCache::bit_packed_atomic_flags (cuckoocache.h)', 'FastRange32 (util/fastrange.h)'],
+      stubs=['Hash functor = nondeterministic function (arbitrary 8 x 32-bit values per distinct element)', 'log2f -> exact integer model for sizes < 256'],
+      assumptions=['the value-initialised element (0) counts as present from the start: setup() fills the table with it (for the production uint256/SHA256 instantiation this value is not a feasible entry)'],
+      bounds='table sizes 2, 3, 4; %d quick / %d thorough sequences of <= 4 (thorough: size 2: all 4-operation sequences containing an insert, size 3: those starting with an insert, plus four 6-operation ones) over {insert, contains, contains+erase}; 64-bit elements and all hash values symbolic' % (len(CK_QUICK), len(CK_THOROUGH))),
+    H('entry', 'sigchk.cpp', 'h_entry', link=SIGLINK, defines={'MODE': 1}, variants=[{'PKLEN': 33, 'SIGLEN': 63}, {'PKLEN': 65, 'SIGLEN': 71}], tvariants=[{'PKLEN': 33, 'SIGLEN': 63}, {'PKLEN': 33, 'SIGLEN': 63, 'PKHDR33': 3}, {'PKLEN': 65, 'SIGLEN': 71}, {'PKLEN': 65, 'SIGLEN': 72, 'PKHDR65': 6}, {'PKLEN': 65, 'SIGLEN': 8, 'PKHDR65': 7}, {'PKLEN': 33, 'SIGLEN': 0}],
+      shadow=['nofmt'], unwind=250, memunwind=170, timeout=600, objbits=11, functions=SIGFN[:3] + SIGFN[7:], stubs=SIGST, assumptions=SIGAS[:1],
+      bounds='two ECDSA triples and one Schnorr triple per query; pubkey 33 or 65 bytes (header byte concrete), ECDSA signature 0/8/63/71/72 bytes, Schnorr 32+64 bytes; nonce, sighash, key and signature bytes symbolic; 33+63 == 32+64 makes byte-identical cross-kind payloads possible'),
+    H('checker', 'sigchk.cpp', 'h_checker', link=SIGLINK, defines={'MODE': 2}, interpose=True, variants=[{'KIND': E, 'PKLEN': 33, 'SIGLEN': 71}, {'KIND': S}], shadow=['nofmt'], unwind=250, memunwind=170, timeout=600, objbits=12,
+      functions=SIGFN[5:7] + SIGFN[1:3], stubs=SIGST + ['SignatureCache::Get/Set -> recorders with a symbolic hit/miss answer (sigcache.cpp compiled with semantic interposition so that the in-TU callers use them)', 'std::allocator<char> trivial members -> empty bodies'], assumptions=SIGAS[:1],
+      bounds='one ECDSA (33-byte key, 71-byte signature) or Schnorr (32+64) check per query; store flag, cache answer, verifier verdict and all bytes symbolic'),
+    H('e2e', 'sigchk.cpp', 'h_e2e', link=SIGLINK, defines={'MODE': 3}, variants=[{'K1': E, 'K2': S}, {'K1': E, 'K2': E}, {'K1': S, 'K2': S}], tvariants=[{'K1': E, 'K2': S}, {'K1': S, 'K2': E}, {'K1': E, 'K2': E}, {'K1': S, 'K2': S}, {'K1': E, 'K2': E, 'ESIG': 40}],
+      backends=['default', 'kissat', 'cadical'], shadow=['nofmt'], unwind=250, memunwind=170, timeout=900, objbits=11,
+      functions=SIGFN + ['CuckooCache::cache<uint256, SignatureCacheHasher> (real, 2 slots)', 'SignatureCacheHasher (util/hasher.h)'], stubs=SIGST, assumptions=SIGAS,
+      bounds='two consecutive signature checks against one real SignatureCache(64 bytes = 2 slots); kinds concrete (EE, ES, SE, SS), ECDSA 33-byte key + 3-byte signature / Schnorr 32-byte key + 4-byte signature (so payloads can coincide bytewise), all bytes, both store flags and the verdict function symbolic'),
 ]
